@@ -38,9 +38,10 @@ class OraSequence(DBObject):
     def __init__(sequence, table, name=None):
         sequence.table = table
         table_name = table.name
+        max_len = table.schema.provider.max_name_len - len('_SEQ')
         if name is not None: sequence.name = name
-        elif isinstance(table_name, str): sequence.name = table_name + '_SEQ'
-        else: sequence.name = tuple(table_name[:-1]) + (table_name[-1] + '_SEQ',)
+        elif isinstance(table_name, str): sequence.name = table_name[:max_len] + '_SEQ'
+        else: sequence.name = tuple(table_name[:-1]) + (table_name[-1][:max_len] + '_SEQ',)
     def exists(sequence, provider, connection, case_sensitive=True):
         if case_sensitive: sql = 'SELECT sequence_name FROM all_sequences ' \
                                  'WHERE sequence_owner = :so and sequence_name = :sn'
@@ -74,7 +75,7 @@ class OraTrigger(DBObject):
         trigger.sequence = sequence
         table_name = table.name
         if not isinstance(table_name, str): table_name = table_name[-1]
-        trigger.name = table_name + '_BI' # Before Insert
+        trigger.name = table_name[:table.schema.provider.max_name_len - len('_BI')] + '_BI' # Before Insert
     def exists(trigger, provider, connection, case_sensitive=True):
         if case_sensitive: sql = 'SELECT trigger_name FROM all_triggers ' \
                                  'WHERE table_name = :tbn AND table_owner = :o ' \
